@@ -26,6 +26,19 @@ hand out has passed the tests the documentation promises.
         substituted by a power-safe (parenthesised) operand
   Q-R6  identify: the linear formula is built only for a relation that involves
         at least one constant besides x
+  Q-R7  pslq: the Euclidean norm bound is reduced by >= sqrt(n) before it is
+        compared with maxcoeff;  Q-R8  recursive calls forward every option
+  Q-R9  pslq: the returned vector passed the INTEGER test
+        |sum v*xk| <= (tol*xnorm) >> prec on the fixed-point input itself (x not
+        written after its conversion, xnorm = ||x|| taken before normalisation)
+  Q-R10 pslq: the input is scaled by one common power of two before the
+        conversion and the small-entry guard is relative to the norm
+  Q-R11 identify: a formula is stored only after it was evaluated (integer
+        literals as mpf) and compared with x; an arithmetic failure rejects it;
+        `return solutions[0]` only after a successful addsolution
+  Q-R12 findpoly: the powers carry >= 60 guard bits and pslq does not round its
+        entries to the working precision
+  Q-R13 the string builders return a string on every path
 """
 import ast
 
@@ -72,6 +85,271 @@ def cmp_parts(test):
     return None
 
 
+def _same_names(a, b):
+    return sorted(a) == sorted(b)
+
+
+def check_exact_recheck(run, fn, r, vec, gates, conjuncts):
+    """Q-R9.  The vector that is returned has passed the documented bound AGAINST THE INPUT: an integer test
+    |sum(v*xk)| <= tol*||x|| on the fixed-point input itself, not only the test on the reduced vector y (whose
+    rounding errors grow with the coefficients of the reduction).  Decided: a conjunct of the enclosing tests is
+    `abs(sum(v*xk for (v, xk) in zip(<returned vector>, x[1:]))) <= (tol*xnorm) >> prec`; x is the converted
+    input and is never written afterwards (y is a copy); xnorm is s[1] taken before s is normalised."""
+    found = None
+    for c in conjuncts:
+        if not (isinstance(c, ast.Compare) and len(c.ops) == 1 and isinstance(c.ops[0], (ast.LtE, ast.Lt))):
+            continue
+        L, R = c.left, c.comparators[0]
+        if not (isinstance(L, ast.Call) and norm(L.func) == 'abs' and len(L.args) == 1):
+            continue
+        sm = L.args[0]
+        if not (isinstance(sm, ast.Call) and norm(sm.func) == 'sum' and sm.args and
+                isinstance(sm.args[0], (ast.GeneratorExp, ast.ListComp))):
+            continue
+        ge = sm.args[0]
+        gen = ge.generators[0]
+        if len(ge.generators) != 1 or gen.ifs or not (isinstance(gen.iter, ast.Call) and norm(gen.iter.func) == 'zip'):
+            continue
+        found = (c, ge, gen, R)
+    if found is None:
+        run.fail(F('Q-R9', 'pslq', r, 'the relation is returned on the evidence of the reduced vector y alone: its '
+                   'residual is not re-computed from the input x (with coefficients of the size of 1/tol the rounding '
+                   'errors carried by y exceed the tolerance and a non-relation is returned)'))
+        return
+    c, ge, gen, R = found
+    tnames = [n.id for n in ast.walk(gen.target) if isinstance(n, ast.Name)]
+    elt_ok = isinstance(ge.elt, ast.BinOp) and isinstance(ge.elt.op, ast.Mult) and \
+        _same_names([norm(ge.elt.left), norm(ge.elt.right)], tnames)
+    zargs = [norm(a) for a in gen.iter.args]
+    zip_ok = _same_names(zargs, [vec, 'x[1:]'])
+    rhs_ok = isinstance(R, ast.BinOp) and isinstance(R.op, ast.RShift) and norm(R.right) == 'prec' and \
+        isinstance(R.left, ast.BinOp) and isinstance(R.left.op, ast.Mult) and \
+        _same_names([norm(R.left.left), norm(R.left.right)], ['tol', 'xnorm'])
+    if not (elt_ok and zip_ok and rhs_ok):
+        run.fail(F('Q-R9', 'pslq', c, 'the re-check of the relation is not |sum(v*xk over zip(%s, x[1:]))| <= '
+                   '(tol*xnorm) >> prec (found `%s`): it does not bound the residual of the returned vector on the '
+                   'input by tol*||x||' % (vec, norm(c, 120))))
+        return
+    run.ok('Q-R9', 'returned vector passed `%s`' % norm(c, 100))
+    # x untouched after the conversion; y a copy
+    conv = [st for st in _walk_own(fn) if isinstance(st, ast.Assign) and norm(st.targets[0]) == 'x' and
+            'to_fixed' in norm(st.value, 300)]
+    last = max(st.lineno for st in conv) if conv else 0
+    writes = [st for st in _walk_own(fn) if isinstance(st, (ast.Assign, ast.AugAssign)) and st.lineno > last and
+              any(isinstance(t, (ast.Name, ast.Subscript)) and norm(t if isinstance(t, ast.Name) else t.value) == 'x'
+                  for t in (st.targets if isinstance(st, ast.Assign) else [st.target]))]
+    alias = [st for st in _walk_own(fn) if isinstance(st, ast.Assign) and isinstance(st.value, ast.Name) and
+             st.value.id == 'x' and st.lineno > last]
+    if writes or alias or not conv:
+        bad = (writes or alias or [r])[0]
+        run.fail(F('Q-R9', 'pslq', bad, 'the fixed-point input x is modified (or aliased) after its conversion: the '
+                   're-check no longer tests the relation against the input'))
+    else:
+        run.ok('Q-R9', 'x is not written after its conversion (y = x[:] is a copy)')
+    # xnorm = s[1] before the normalisation of s
+    xdefs = [st for st in _walk_own(fn) if isinstance(st, ast.Assign) and
+             any(norm(t) == 'xnorm' for t in st.targets)]
+    sstores = [st for st in _walk_own(fn) if isinstance(st, ast.Assign) and
+               any(isinstance(t, ast.Subscript) and norm(t.value) == 's' for t in st.targets)]
+    comp = [st for st in sstores if 'sqrt_fixed' in norm(st.value)]
+    other = [st for st in sstores if 'sqrt_fixed' not in norm(st.value)]
+    if len(xdefs) == 1 and norm(xdefs[0].value) == 's[1]' and comp and \
+            max(st.lineno for st in comp) < xdefs[0].lineno and \
+            all(xdefs[0].lineno < st.lineno for st in other):
+        run.ok('Q-R9', 'xnorm = s[1] = ||x||, taken after the norms are computed and before s is normalised')
+    else:
+        run.fail(F('Q-R9', 'pslq', xdefs[0] if xdefs else c, 'xnorm is not the Euclidean norm s[1] of the input '
+                   '(taken before s is divided by it): the bound of the re-check is not tol*||x||'))
+
+
+def check_scaling(run, ix):
+    """Q-R10.  The documented bound is relative (|sum c_k x_k| <= tol*||x||), the fixed-point format is absolute.
+    Decided: every entry is multiplied by one common power of two (ldexp by minus the largest magnitude) before
+    the conversion, and the small-entry guard compares an entry RELATIVE to the norm with the tolerance -- with
+    the raw entry, an exact relation among small numbers is refused (and among large ones precision is lost)."""
+    f = ix.func(IDENT, 'pslq')
+    fn = f.node
+    scaled = None
+    for st in _walk_own(fn):
+        if isinstance(st, ast.Assign) and norm(st.targets[0]) == 'x' and isinstance(st.value, ast.ListComp):
+            e = st.value.elt
+            if isinstance(e, ast.Call) and norm(e.func).endswith('ldexp') and len(e.args) == 2:
+                var = norm(st.value.generators[0].target)
+                k = e.args[1]
+                names = set(n.id for n in ast.walk(k) if isinstance(n, ast.Name))
+                if norm(e.args[0]) == var and var not in names and isinstance(k, ast.UnaryOp) and \
+                        isinstance(k.op, ast.USub) and 'max(' in norm(k):
+                    scaled = st
+    conv = [st for st in _walk_own(fn) if isinstance(st, ast.Assign) and norm(st.targets[0]) == 'x' and
+            'to_fixed' in norm(st.value, 300)]
+    if not conv:
+        raise AnalysisError('pslq: conversion of x not found')
+    if scaled is not None and scaled.lineno < conv[0].lineno:
+        run.ok('Q-R10', 'input scaled by one common power of two before the conversion: `%s`' % norm(scaled, 80))
+    else:
+        run.fail(F('Q-R10', 'pslq', conv[0], 'the input vector is converted to fixed point as given: for a vector '
+                   'of small numbers the norm underflows and an exact relation is refused (pslq([a, -a]) with a = '
+                   '1e-5), although the documented bound is relative to ||x||'))
+    guards = [x for x in _walk_own(fn) if isinstance(x, ast.If) and isinstance(x.test, ast.Compare) and
+              'tol' in norm(x.test.comparators[0]) and isinstance(x.test.ops[0], ast.Lt) and
+              any(isinstance(b, ast.Return) for b in x.body) and 'min' in norm(x.test.left)]
+    if not guards:
+        run.ok('Q-R10', 'no small-entry guard')
+    for g in guards:
+        names = set(n.id for n in ast.walk(g.test.left) if isinstance(n, ast.Name))
+        if 'xnorm' in names or 'y' in names:
+            run.ok('Q-R10', 'small-entry guard is relative to the norm: `%s`' % norm(g.test, 80))
+        else:
+            run.fail(F('Q-R10', 'pslq', g, 'the small-entry guard compares the raw entry `%s` with the RELATIVE '
+                       'tolerance: the answer depends on the scale of the vector' % norm(g.test.left, 40)))
+
+
+def check_formula_verified(run, ix):
+    """Q-R11.  Every formula identify hands out has been evaluated and compared with x.  (A relation holds for the
+    transformed value t = f(x, c); next to a double root of the quadratic, or where the inverse transformation
+    is ill-conditioned, the formula misses x by far more than the tolerance.)  Decided: `solutions.append` occurs
+    only in addsolution, after a test `abs(v - x) <= K*tol*max(1, abs(x))` on v = eval(formula) whose failure
+    returns a false value, as do arithmetic errors of the evaluation; `return solutions[0]` is always conditional on
+    a true addsolution(...)."""
+    f = ix.func(IDENT, 'identify')
+    fn = f.node
+    add = None
+    for x in ast.walk(fn):
+        if isinstance(x, ast.FunctionDef) and x.name == 'addsolution':
+            add = x
+    if add is None:
+        raise AnalysisError('identify: addsolution not found')
+    apps = [x for x in ast.walk(fn) if isinstance(x, ast.Call) and norm(x.func) == 'solutions.append']
+    outside = [x for x in apps if x not in list(ast.walk(add))]
+    if outside:
+        run.fail(F('Q-R11', 'identify', outside[0], 'a formula is stored without passing through addsolution'))
+    param = add.args.args[0].arg
+    evals = [st for st in ast.walk(add) if isinstance(st, ast.Assign) and isinstance(st.value, ast.Call) and
+             norm(st.value.func) == 'eval' and
+             any(isinstance(n, ast.Name) and n.id == param for n in ast.walk(st.value.args[0]))]
+    test = None
+    for x in ast.walk(add):
+        if isinstance(x, ast.If) and evals:
+            v = norm(evals[0].targets[0])
+            t = x.test
+            neg = isinstance(t, ast.UnaryOp) and isinstance(t.op, ast.Not)
+            cmp_ = t.operand if neg else t
+            if isinstance(cmp_, ast.Compare) and len(cmp_.ops) == 1 and \
+                    norm(cmp_.left) in ('abs(%s - x)' % v, 'abs(x - %s)' % v):
+                op = type(cmp_.ops[0])
+                rejecting = (neg and op in (ast.LtE, ast.Lt)) or (not neg and op in (ast.Gt, ast.GtE))
+                rhs = cmp_.comparators[0]
+                rn = set(n.id for n in ast.walk(rhs) if isinstance(n, ast.Name))
+                rets = [b for b in x.body if isinstance(b, ast.Return)]
+                falsy = rets and (rets[0].value is None or (isinstance(rets[0].value, ast.Constant) and not rets[0].value.value))
+                if rejecting and 'tol' in rn and falsy:
+                    test = x
+    app_in = [x for x in apps if x not in outside]
+    if not evals or test is None or not app_in or not all(a.lineno > test.lineno for a in app_in):
+        run.fail(F('Q-R11', 'identify', add.body[0] if not app_in else enclosing_stmt_(app_in[0]),
+                   'formulas are handed out without being evaluated and compared with x: next to a double root of '
+                   'the quadratic (identify(1.5000001) -> ((12-sqrt(0))/8)) or for an ill-conditioned inverse '
+                   'transformation (identify(1e12) -> 1/log(1)) the formula is not x within the tolerance'))
+        return
+    run.ok('Q-R11', 'stored only after `%s` on the evaluated formula' % norm(test.test, 80))
+    # arithmetic failure of the evaluation rejects
+    tries = [x for x in ast.walk(add) if isinstance(x, ast.Try) and evals[0] in list(ast.walk(x))]
+    okh = False
+    for t in tries:
+        for h in t.handlers:
+            hn = set(n.id for n in ast.walk(h.type) if isinstance(n, ast.Name)) if h.type is not None else set()
+            if hn & {'ArithmeticError', 'ZeroDivisionError'}:
+                rets = [b for b in h.body if isinstance(b, ast.Return)]
+                if rets and (rets[0].value is None or (isinstance(rets[0].value, ast.Constant) and not rets[0].value.value)):
+                    okh = True
+    if okh:
+        run.ok('Q-R11', 'a formula whose evaluation divides by zero is rejected')
+    else:
+        run.fail(F('Q-R11', 'identify', evals[0], 'a formula whose evaluation fails (1/log(1)) is not rejected'))
+    # integer literals become mpf (5**(1/3) is a float power otherwise: wrong verdicts above 53 bits)
+    if '_int_literals.sub' in norm(evals[0].value.args[0], 200) or 'mpf' in norm(evals[0].value.args[0], 200):
+        run.ok('Q-R11', 'integer literals are evaluated as mpf')
+    else:
+        run.fail(F('Q-R11', 'identify', evals[0], 'the formula is evaluated with Python int literals: (1/3) is a '
+                   'float, so correct formulas with fractional powers are judged at 53 bits'))
+    # return solutions[0] only after a successful add
+    for r in _walk_own(fn):
+        if isinstance(r, ast.Return) and r.value is not None and norm(r.value) == 'solutions[0]':
+            gs = ancestors_if(r, fn)
+            ok = any(any(isinstance(c, ast.Call) and norm(c.func) == 'addsolution' for c in
+                         (g.test.values if isinstance(g.test, ast.BoolOp) and isinstance(g.test.op, ast.And) else [g.test]))
+                     for g in gs)
+            if ok:
+                run.ok('Q-R11', '`return solutions[0]` only when addsolution accepted the formula')
+            else:
+                run.fail(F('Q-R11', 'identify', r, '`return solutions[0]` is not conditional on addsolution having '
+                           'accepted the formula: a rejected candidate raises IndexError or returns an older one'))
+
+
+def enclosing_stmt_(node):
+    p = node
+    while not isinstance(p, ast.stmt):
+        p = p._parent
+    return p
+
+
+def check_total_strings(run, ix):
+    """Q-R13.  The string builders return a string on every path (prodstring fell off its end for the empty
+    product and identify stored None as a formula)."""
+    for name in ('pslqstring', 'prodstring', 'quadraticstring'):
+        f = ix.func(IDENT, name)
+        last = f.node.body[-1]
+        if isinstance(last, ast.Return) and last.value is not None and \
+                not (isinstance(last.value, ast.Constant) and last.value.value is None):
+            run.ok('Q-R13', '%s ends in `%s`' % (name, norm(last, 50)))
+        else:
+            run.fail(F('Q-R13', name, last, 'the function can fall off its end and return None, which identify stores '
+                       'as a formula (identify(1.000000000005, full=True) raised TypeError when sorting)'))
+
+
+def check_findpoly_guard(run, ix):
+    """Q-R12.  findpoly promises a polynomial with x as a root within the tolerance; pslq certifies the relation
+    for the numbers it was GIVEN.  Decided: the powers are computed with a raised precision (>= 60 bits, the guard
+    bits of pslq's fixed-point format) and pslq converts its input without rounding it to the working precision
+    (`ctx.convert`, not `ctx.mpf`)."""
+    f = ix.func(IDENT, 'findpoly')
+    app = [x for x in _walk_own(f.node) if isinstance(x, ast.Call) and norm(x.func) == 'xs.append']
+    if not app:
+        raise AnalysisError('findpoly: xs.append not found')
+    raised = None
+    p = app[0]
+    while p is not f.node:
+        p = p._parent
+        if isinstance(p, ast.Try):
+            for st in p.body:
+                if isinstance(st, ast.Assign) and norm(st.targets[0]) == 'ctx.prec' and \
+                        isinstance(st.value, ast.BinOp) and isinstance(st.value.op, ast.Add):
+                    k = [z.value for z in (st.value.left, st.value.right) if isinstance(z, ast.Constant)]
+                    if k and k[0] >= 60 and st.lineno < app[0].lineno:
+                        raised = st
+        if isinstance(p, ast.With):
+            for it in p.items:
+                c = it.context_expr
+                if isinstance(c, ast.Call) and norm(c.func).endswith(('extraprec', 'workprec')) and c.args and \
+                        isinstance(c.args[0], ast.Constant) and c.args[0].value >= 60:
+                    raised = p
+    if raised is not None:
+        run.ok('Q-R12', 'powers computed with guard bits: `%s`' % norm(raised, 60))
+    else:
+        run.fail(F('Q-R12', 'findpoly', app[0], 'the powers x**i are rounded to the working precision before pslq sees '
+                   'them: the polynomial found is a relation for the rounded powers, and with large coefficients '
+                   '|P(x)| exceeds the bound (12.6 times for maxcoeff = 10**6 at 53 bits)'))
+    g = ix.func(IDENT, 'pslq')
+    rounding = [x for x in _walk_own(g.node) if isinstance(x, ast.Call) and norm(x.func) == 'ctx.mpf' and
+                x.args and isinstance(x.args[0], ast.Name) and x.args[0].id == 'xk']
+    if rounding:
+        run.fail(F('Q-R12', 'pslq', rounding[0], 'pslq rounds each entry to the working precision (`ctx.mpf(xk)`) '
+                   'before converting it to its 60-guard-bit fixed-point format: guard bits supplied by findpoly '
+                   'are discarded'))
+    else:
+        run.ok('Q-R12', 'pslq converts its entries without rounding them to the working precision')
+
+
 def check_pslq(run, ix):
     f = ix.func(IDENT, 'pslq')
     fn = f.node
@@ -89,8 +367,16 @@ def check_pslq(run, ix):
             run.fail(F('Q-R1', 'pslq', r, 'a computed expression is returned instead of the tested vector'))
             continue
         vec = r.value.id
-        gates = ancestors_if(r, fn)
-        tests = [cmp_parts(g.test) for g in gates]
+        gates0 = ancestors_if(r, fn)
+        # one entry per conjunct of every enclosing test
+        gates, tests, conj_nodes = [], [], []
+        for g in gates0:
+            cs = g.test.values if isinstance(g.test, ast.BoolOp) and isinstance(g.test.op, ast.And) else [g.test]
+            for c_ in cs:
+                gates.append(g)
+                tests.append(cmp_parts(c_))
+                conj_nodes.append(c_)
+        check_exact_recheck(run, fn, r, vec, gates0, conj_nodes)
         loop = enclosing_for(r, fn)
         ivar = norm(loop.target) if loop is not None else None
         # (b) coefficient bound on exactly this vector, strict
@@ -461,9 +747,13 @@ def run(run, ix, tier):
         'value is dominated by the right test on the right object (the same vector, the same column index, the '
         'caller\'s tolerance and bound, like-scaled fixed-point numbers).  Whether the PSLQ iteration finds a '
         'relation, and the accuracy of its fixed-point arithmetic, are numerical and not decided.')
-    run.assumptions = ['y[i] is the residual of column i of B (PSLQ invariant maintained by the iteration: not decided)']
+    run.assumptions = ['y[i] is the residual of column i of B (PSLQ invariant maintained by the iteration: not decided; '
+                       'since repair 171b123 the returned vector is re-checked against the input, rule Q-R9, so the '
+                       'invariant is no longer needed for the bound)',
+                       'sqrt_fixed and to_fixed are accurate to one unit of the 2**-(prec+60) format']
     run.trusted = []
     run.rule('Q-R1', floor=5)
+    run.rule('Q-R9', floor=3)
     run.rule('Q-R2', floor=4)
     run.rule('Q-R3', floor=5)
     run.rule('Q-R4', floor=6)
@@ -477,3 +767,11 @@ def run(run, ix, tier):
     run.rule('Q-R8', floor=1)
     check_norm_exit(run, ix)
     check_self_delegation(run, ix)
+    run.rule('Q-R10', floor=2)
+    run.rule('Q-R11', floor=4)
+    run.rule('Q-R12', floor=2)
+    run.rule('Q-R13', floor=3)
+    check_scaling(run, ix)
+    check_formula_verified(run, ix)
+    check_findpoly_guard(run, ix)
+    check_total_strings(run, ix)
